@@ -35,8 +35,10 @@ func (e *Engine) noteAccess(st *State, p Ptr, n int, write bool) {
 			continue
 		}
 		skip := 0
-		if th.BarParent == ot.ID && ot.Blocks == th.BarBlocks {
-			skip = th.BarN // accesses of the parent that precede the go statement
+		for _, b := range th.Bars {
+			if b.parent == ot.ID && ot.Blocks == b.blocks && b.n > skip {
+				skip = b.n // accesses of an ancestor that precede the go statement
+			}
 		}
 		for i, a := range ot.Open {
 			if i < skip {
